@@ -161,10 +161,12 @@ EvNode(nd, st, d, C) ==
            THEN [st EXCEPT !.err = "var"]
            ELSE [st EXCEPT !.sc = AssignTop(@, nd.asg), !.unr = Append(@, nd)]
       [] nd.k = "if" ->
-           IF EvalE(nd.cond, st.sc) # 0
-           THEN LET s2 == EvKids(nd, st, d + 1, C)
-                IN [s2 EXCEPT !.unr = st.unr \o s2.unr]
-           ELSE st
+           \* a test reading another element (nd.ref) depends on it like a positioned shape does
+           LET sR == [st EXCEPT !.refs = IF nd.ref > 0 /\ ~st.specs THEN @ \cup {<<nd.id, nd.ref>>} ELSE @]
+           IN IF EvalE(nd.cond, st.sc) # 0
+              THEN LET s2 == EvKids(nd, sR, d + 1, C)
+                   IN [s2 EXCEPT !.unr = st.unr \o s2.unr]
+              ELSE sR
       [] nd.k = "void" -> [st EXCEPT !.unr = Append(@, nd)]
       [] nd.k = "config" -> [st EXCEPT !.lim = ApplyConfig(@, nd.loc), !.unr = Append(@, nd)]
       \* count="$b": the count is the value of the expression when the loop is ENTERED
